@@ -56,6 +56,26 @@ func GrindAbove(h *Header) {
 	}
 }
 
+// GrindJustAbove finds a nonce whose hash is above the target but at most twice the target (as many significant
+// bytes as the target has, or one more).
+func GrindJustAbove(h *Header) {
+	t, _, _ := CompactToBig(h.Bits)
+	t2 := new(big.Int).Lsh(t, 1)
+	for n := 0; n < 1<<22; n++ {
+		hh := h.Hash()
+		var be [32]byte
+		for i := range hh {
+			be[31-i] = hh[i]
+		}
+		v := new(big.Int).SetBytes(be[:])
+		if v.Cmp(t) > 0 && v.Cmp(t2) <= 0 {
+			return
+		}
+		h.Nonce++
+	}
+	GrindAbove(h)
+}
+
 type Miner struct {
 	L *Ledger
 	W *Wallet
@@ -82,7 +102,7 @@ func (m *Miner) outKinds(height uint32) []int {
 func (m *Miner) spendableAt(kind int, height uint32) bool {
 	p := m.L.P
 	switch kind {
-	case KP2WPKH, KP2SHWPKH, KP2WSHTrue:
+	case KP2WPKH, KP2SHWPKH, KP2WSHTrue, KWshMultiSep:
 		return p.SegwitHeight != 0 && height >= p.SegwitHeight
 	case KP2TR, KP2TRS:
 		return p.TaprootHeight != 0 && height >= p.TaprootHeight
@@ -92,7 +112,10 @@ func (m *Miner) spendableAt(kind int, height uint32) bool {
 
 // txOutKinds: what transactions (not coinbases: the fixed prefix stays as it is) pay to.
 func (m *Miner) txOutKinds(height uint32) []int {
-	k := m.outKinds(height)
+	k := append(m.outKinds(height), KMultiSep)
+	if p := m.L.P; p.SegwitHeight != 0 && height >= p.SegwitHeight {
+		k = append(k, KWshMultiSep)
+	}
 	if p := m.L.P; p.TaprootHeight != 0 && height >= p.TaprootHeight {
 		k = append(k, KP2TRS)
 	}
@@ -740,7 +763,11 @@ func (m *Miner) MutateC05(parent *Node, b *Block, kind string, now int64) bool {
 	switch kind {
 	case "high-hash":
 		b.H.Nonce = 0
-		GrindAbove(&b.H)
+		if m.R.Chance(0.5) {
+			GrindJustAbove(&b.H)
+		} else {
+			GrindAbove(&b.H)
+		}
 	case "bits-wrong":
 		want := m.L.ExpectedBits(parent, b.H.Time)
 		cands := []uint32{0x207ffffe, 0x1f7fffff, 0x2000ffff, parent.Bits, p.PowLimitBits, want + 1, want - 1}
